@@ -1,9 +1,9 @@
 /-!
-# Reference-level model of `Array<Node>` with `struct Node { int v; Array<Node> kids; }` (core Lean only)
+# Reference-level model of `Array<Node>` with `struct Node { int v; Array<Node> kids; Array<int> ints; }` (core Lean only)
 
 Used by the correspondence check only (no theorems): an element type whose payload is itself an `asl::Array`, so that
 an argument of `operator=`, `append`, `copy` can be *stored inside an element of the same array*
-(`a = a[j].kids`, `a.append(a[j].kids)`, `a.copy(a[j].kids)`).  Cells are shared sequences of `(v, kids cell)`
+(`a = a[j].kids`, `a.append(a[j].kids)`, `a.copy(a[j].kids)`, and the converting assignment `a = a[j].ints`).  Cells are shared sequences of `(v, kids cell)`
 with an explicit reference count (one reference per handle slot and per `Node` object holding the cell); the last
 release destroys the elements, which release their own `kids`.  There is no capacity here: operations that may grow
 a block are left out whenever the block is shared at all (`rc > 1`), a superset of the known finding `shared-growth`.
@@ -11,157 +11,214 @@ a block are left out whenever the block is shared at all (`rc > 1`), a superset 
 namespace AslModel.ArrN
 
 structure NCell where
-  elems : List (Int × Nat)
+  elems : List (Int × Nat × Nat)     -- (v, id of the `kids` cell, id of the `ints` cell)
   rc : Nat
 
-structure NSt where
+structure ICell where
+  vals : List Int
+  rc : Nat
+
+structure Store where
   cells : List NCell
+  icells : List ICell
+
+structure NSt where
+  store : Store
   hs : List (Option Nat)
 
 def NS : Nat := 6
-def NSt.init : NSt := ⟨[], List.replicate NS none⟩
+def NSt.init : NSt := ⟨⟨[], []⟩, List.replicate NS none⟩
 
-def modify (cs : List NCell) (c : Nat) (f : NCell → NCell) : List NCell :=
-  match cs[c]? with
-  | some x => cs.set c (f x)
-  | none => cs
+def modify (st : Store) (c : Nat) (f : NCell → NCell) : Store :=
+  match st.cells[c]? with
+  | some x => { st with cells := st.cells.set c (f x) }
+  | none => st
 
-def retain (cs : List NCell) (c : Nat) : List NCell := modify cs c fun x => { x with rc := x.rc + 1 }
+def modifyI (st : Store) (c : Nat) (f : ICell → ICell) : Store :=
+  match st.icells[c]? with
+  | some x => { st with icells := st.icells.set c (f x) }
+  | none => st
 
-/-- drop one reference; the last one destroys the elements, each of which releases its `kids` -/
-def release : Nat → List NCell → Nat → List NCell
-  | 0, cs, _ => cs
-  | f + 1, cs, c =>
-    match cs[c]? with
-    | none => cs
+def retain (st : Store) (c : Nat) : Store := modify st c fun x => { x with rc := x.rc + 1 }
+def retainI (st : Store) (c : Nat) : Store := modifyI st c fun x => { x with rc := x.rc + 1 }
+def releaseI (st : Store) (c : Nat) : Store :=
+  modifyI st c fun x => if x.rc ≤ 1 then ⟨[], 0⟩ else { x with rc := x.rc - 1 }
+
+/-- a copy of a `Node` shares both arrays of the original -/
+def retainElem (st : Store) (e : Int × Nat × Nat) : Store := retainI (retain st e.2.1) e.2.2
+
+/-- drop one reference; the last one destroys the elements, each of which releases its `kids` and its `ints` -/
+def release : Nat → Store → Nat → Store
+  | 0, st, _ => st
+  | f + 1, st, c =>
+    match st.cells[c]? with
+    | none => st
     | some cell =>
-      if cell.rc ≤ 1 then cell.elems.foldl (fun cs e => release f cs e.2) (cs.set c ⟨[], 0⟩)
-      else cs.set c { cell with rc := cell.rc - 1 }
+      if cell.rc ≤ 1 then
+        cell.elems.foldl (fun st e => releaseI (release f st e.2.1) e.2.2) { st with cells := st.cells.set c ⟨[], 0⟩ }
+      else { st with cells := st.cells.set c { cell with rc := cell.rc - 1 } }
 
-def rel (cs : List NCell) (c : Nat) : List NCell := release (cs.length + 2) cs c
+def rel (st : Store) (c : Nat) : Store := release (st.cells.length + 2) st c
+def relElem (st : Store) (e : Int × Nat × Nat) : Store := releaseI (rel st e.2.1) e.2.2
 
-def fresh (cs : List NCell) : List NCell × Nat := (cs ++ [⟨[], 1⟩], cs.length)
+def fresh (st : Store) : Store × Nat := ({ st with cells := st.cells ++ [⟨[], 1⟩] }, st.cells.length)
+def freshI (st : Store) : Store × Nat := ({ st with icells := st.icells ++ [⟨[], 1⟩] }, st.icells.length)
+/-- `Node(v)` : new empty `kids` and `ints` -/
+def freshNode (st : Store) (v : Int) : Store × (Int × Nat × Nat) :=
+  let (st, k) := fresh st
+  let (st, i) := freshI st
+  (st, (v, k, i))
 
 def cellOf (st : NSt) (h : Nat) : Option (Nat × NCell) :=
   match st.hs[h]? with
-  | some (some c) => (st.cells[c]?).map fun x => (c, x)
+  | some (some c) => (st.store.cells[c]?).map fun x => (c, x)
   | _ => none
 
-def elemAt (x : NCell) (j : Nat) : Option (Int × Nat) := x.elems[j % x.elems.length]?
+def elemAt (x : NCell) (j : Nat) : Option (Int × Nat × Nat) := x.elems[j % x.elems.length]?
 
 inductive NOp where
   | new (h : Nat) | drop (h : Nat) | cp (h g : Nat)
   | app (h : Nat) (v : Int)            -- `a << Node(v)`
   | kapp (h j : Nat) (v : Int)         -- `a[j].kids << Node(v)`
+  | iapp (h j : Nat) (v : Int)         -- `a[j].ints << v`
   | getk (t h j : Nat)                 -- `H[t] = new Array<Node>(a[j].kids)`
   | asgk (h j : Nat)                   -- `a = a[j].kids`
+  | asgi (h j : Nat)                   -- `a = a[j].ints`  (converting `operator=(const Array<int>&)`)
   | apndk (h j : Nat)                  -- `a.append(a[j].kids)`
   | copyk (h j : Nat)                  -- `a.copy(a[j].kids)`
   | rem (h i : Nat)                    -- `a.remove(i)`
 
 def dropSlot (st : NSt) (h : Nat) : NSt :=
   match st.hs[h]? with
-  | some (some c) => { cells := rel st.cells c, hs := st.hs.set h none }
+  | some (some c) => { store := rel st.store c, hs := st.hs.set h none }
   | _ => st
 
 /-- one operation; the Boolean says whether it was carried out (`ok`) or left out (`skip`) -/
 def step (st : NSt) : NOp → NSt × Bool
   | .new h =>
     let st := dropSlot st h
-    let (cs, c) := fresh st.cells
-    ({ cells := cs, hs := st.hs.set h (some c) }, true)
+    let (s, c) := fresh st.store
+    ({ store := s, hs := st.hs.set h (some c) }, true)
   | .drop h => match cellOf st h with
     | some _ => (dropSlot st h, true)
     | none => (st, false)
   | .cp h g => match cellOf st g with
     | some (c, _) =>
-      let st1 : NSt := { st with cells := retain st.cells c }
+      let st1 : NSt := { st with store := retain st.store c }
       let st2 := dropSlot st1 h
       ({ st2 with hs := st2.hs.set h (some c) }, true)
     | none => (st, false)
   | .app h v => match cellOf st h with
     | some (c, x) =>
       if x.rc > 1 then (st, false) else
-      let (cs, k) := fresh st.cells
-      ({ st with cells := modify cs c fun x => { x with elems := x.elems ++ [(v, k)] } }, true)
+      let (s, e) := freshNode st.store v
+      ({ st with store := modify s c fun x => { x with elems := x.elems ++ [e] } }, true)
     | none => (st, false)
   | .kapp h j v => match cellOf st h with
     | some (_, x) => match elemAt x j with
-      | some (_, k) => match st.cells[k]? with
+      | some (_, k, _) => match st.store.cells[k]? with
         | some kx =>
           if kx.rc > 1 then (st, false) else
-          let (cs, k2) := fresh st.cells
-          ({ st with cells := modify cs k fun y => { y with elems := y.elems ++ [(v, k2)] } }, true)
+          let (s, e) := freshNode st.store v
+          ({ st with store := modify s k fun y => { y with elems := y.elems ++ [e] } }, true)
+        | none => (st, false)
+      | none => (st, false)
+    | none => (st, false)
+  | .iapp h j v => match cellOf st h with
+    | some (_, x) => match elemAt x j with
+      | some (_, _, i) => match st.store.icells[i]? with
+        | some ix =>
+          if ix.rc > 1 then (st, false) else
+          ({ st with store := modifyI st.store i fun y => { y with vals := y.vals ++ [v] } }, true)
         | none => (st, false)
       | none => (st, false)
     | none => (st, false)
   | .getk t h j => match cellOf st h with
     | some (_, x) => match elemAt x j with
-      | some (_, k) =>
-        let st1 : NSt := { st with cells := retain st.cells k }
+      | some (_, k, _) =>
+        let st1 : NSt := { st with store := retain st.store k }
         let st2 := dropSlot st1 t
         ({ st2 with hs := st2.hs.set t (some k) }, true)
       | none => (st, false)
     | none => (st, false)
   | .asgk h j => match cellOf st h with
     | some (c, x) => match elemAt x j with
-      | some (_, k) =>
+      | some (_, k, _) =>
         -- take the new block first, then release the old one (code after 46697f8)
-        ({ cells := rel (retain st.cells k) c, hs := st.hs.set h (some k) }, true)
+        ({ store := rel (retain st.store k) c, hs := st.hs.set h (some k) }, true)
+      | none => (st, false)
+    | none => (st, false)
+  | .asgi h j => match cellOf st h with
+    | some (c, x) => match elemAt x j with
+      | some (_, _, i) =>
+        if x.rc > 1 then (st, false) else
+        -- `Array<int> src(b)` holds the source while the old elements are destroyed / overwritten (code after 752cb8b);
+        -- every element becomes `Node(src[k])`: new empty `kids` and `ints`
+        let xs := ((st.store.icells[i]?).map (·.vals)).getD []
+        let s := retainI st.store i
+        let (s, es) := xs.foldl (fun (acc : Store × List (Int × Nat × Nat)) v =>
+          let (s', e) := freshNode acc.1 v; (s', acc.2 ++ [e])) (s, [])
+        let s := modify s c fun y => { y with elems := es }
+        let s := x.elems.foldl relElem s
+        ({ st with store := releaseI s i }, true)
       | none => (st, false)
     | none => (st, false)
   | .apndk h j => match cellOf st h with
     | some (c, x) => match elemAt x j with
-      | some (_, k) =>
+      | some (_, k, _) =>
         if x.rc > 1 then (st, false) else
-        let xs := ((st.cells[k]?).map (·.elems)).getD []
-        let cs := xs.foldl (fun cs e => retain cs e.2) st.cells
-        ({ st with cells := modify cs c fun y => { y with elems := y.elems ++ xs } }, true)
+        let xs := ((st.store.cells[k]?).map (·.elems)).getD []
+        let s := xs.foldl retainElem st.store
+        ({ st with store := modify s c fun y => { y with elems := y.elems ++ xs } }, true)
       | none => (st, false)
     | none => (st, false)
   | .copyk h j => match cellOf st h with
     | some (c, x) => match elemAt x j with
-      | some (_, k) =>
+      | some (_, k, _) =>
         if x.rc > 1 then (st, false) else
         -- `Array src(b)` holds the source block while the old elements are destroyed / overwritten (code after 8a65fa2)
-        let xs := ((st.cells[k]?).map (·.elems)).getD []
-        let cs := xs.foldl (fun cs e => retain cs e.2) (retain st.cells k)
-        let cs := modify cs c fun y => { y with elems := xs }
-        let cs := x.elems.foldl (fun cs e => rel cs e.2) cs
-        ({ st with cells := rel cs k }, true)
+        let xs := ((st.store.cells[k]?).map (·.elems)).getD []
+        let s := xs.foldl retainElem (retain st.store k)
+        let s := modify s c fun y => { y with elems := xs }
+        let s := x.elems.foldl relElem s
+        ({ st with store := rel s k }, true)
       | none => (st, false)
     | none => (st, false)
   | .rem h i => match cellOf st h with
     | some (c, x) => match elemAt x i with
-      | some (_, k) =>
+      | some e =>
         let i' := i % x.elems.length
-        let cs := modify st.cells c fun y => { y with elems := y.elems.take i' ++ y.elems.drop (i' + 1) }
-        ({ st with cells := rel cs k }, true)
+        let s := modify st.store c fun y => { y with elems := y.elems.take i' ++ y.elems.drop (i' + 1) }
+        ({ st with store := relElem s e }, true)
       | none => (st, false)
     | none => (st, false)
 
 def normOp : NOp → NOp
   | .new h => .new (h % NS) | .drop h => .drop (h % NS) | .cp h g => .cp (h % NS) (g % NS)
-  | .app h v => .app (h % NS) v | .kapp h j v => .kapp (h % NS) j v | .getk t h j => .getk (t % NS) (h % NS) j
-  | .asgk h j => .asgk (h % NS) j | .apndk h j => .apndk (h % NS) j | .copyk h j => .copyk (h % NS) j
-  | .rem h i => .rem (h % NS) i
+  | .app h v => .app (h % NS) v | .kapp h j v => .kapp (h % NS) j v | .iapp h j v => .iapp (h % NS) j v
+  | .getk t h j => .getk (t % NS) (h % NS) j
+  | .asgk h j => .asgk (h % NS) j | .asgi h j => .asgi (h % NS) j | .apndk h j => .apndk (h % NS) j
+  | .copyk h j => .copyk (h % NS) j | .rem h i => .rem (h % NS) i
 
-/-- `v:rc[children]` for every element, to a bounded depth -/
-def render (cs : List NCell) : Nat → List (Int × Nat) → String
+/-- `v:rc<ints rc;ints>[children]` for every element, to a bounded depth -/
+def render (st : Store) : Nat → List (Int × Nat × Nat) → String
   | 0, _ => "..."
   | f + 1, es =>
     ",".intercalate (es.map fun e =>
-      match cs[e.2]? with
-      | some k => s!"{e.1}:{k.rc}[{render cs f k.elems}]"
+      let ints := match st.icells[e.2.2]? with
+        | some ic => s!"{ic.rc};" ++ ".".intercalate (ic.vals.map toString)
+        | none => "?"
+      match st.cells[e.2.1]? with
+      | some k => s!"{e.1}:{k.rc}<{ints}>[{render st f k.elems}]"
       | none => s!"{e.1}:?")
 
 def view (st : NSt) (h : Nat) : String :=
   match cellOf st h with
-  | some (_, x) => s!"{x.elems.length}/{x.rc}/{render st.cells 6 x.elems}"
+  | some (_, x) => s!"{x.elems.length}/{x.rc}/{render st.store 6 x.elems}"
   | none => "-"
 
 /-- live `Node` objects: the elements of the cells that are still referenced -/
-def live (st : NSt) : Nat := st.cells.foldl (fun a c => if c.rc > 0 then a + c.elems.length else a) 0
+def live (st : NSt) : Nat := st.store.cells.foldl (fun a c => if c.rc > 0 then a + c.elems.length else a) 0
 
 def showState (st : NSt) : String :=
   " ".intercalate ((List.range NS).map (view st)) ++ s!" | L{live st}"
